@@ -22,6 +22,7 @@ def params_in(b, local):
 
 def run(ctx):
     u7_receive_buffers(ctx)
+    u8_one_datagram_per_decode(ctx)
     prog = ctx.prog
     bodies = [b for b in prog.prod_bodies() if "::_" not in b.defp]
     mods = {}
@@ -430,3 +431,44 @@ def u7_receive_buffers(ctx):
                            "capacity along, so the room offered to later receives shrinks until a datagram no longer fits and is cut short by the OS (recv_buf_from never grows the buffer)")
             ctx.ob("U7", b.defp, f"receive-buffer-holds-any-datagram:{c.method}", where, verdict, why)
     ctx.floor("U7", "receive calls on UDP sockets", 2, n)
+
+
+OPEN_METHODS = ("decrypt_in_place", "decrypt_in_place_detached", "open")
+
+
+def u8_one_datagram_per_decode(ctx):
+    """U8: a datagram is never merged with its neighbour. The function whose result becomes the payload of a datagram message (a `*Udp*`
+    variant of the inbound enum, or the (bytes, address) item of a datagram codec) decodes ONE unit: in its flat view no AEAD open may lie
+    on a cycle — a decoder that loops over every complete chunk in the buffer (the stream body decoder) concatenates datagrams that arrived
+    in one read."""
+    prog = ctx.prog
+    producers = {}
+    for b in prog.prod_bodies():
+        if "::_" in b.defp or not b.defp.startswith("octo_squirrel"):
+            continue
+        udp_aggs = []
+        for blk in b.rpo():
+            for s in b.stmts(blk):
+                if s["k"] == "assign" and s["rv"]["k"] == "agg" and s["rv"].get("ak") == "adt" and "Udp" in str(s["rv"].get("variant")) and s["rv"]["ops"]:
+                    udp_aggs.append((blk, s))
+        if not udp_aggs:
+            continue
+        for (blk, s) in udp_aggs:
+            srcs = [op_place(o)[0] for o in s["rv"]["ops"] if op_place(o)]
+            _, calls, _ = b.slice_back(srcs)
+            for (cb, c, t) in calls:
+                tb = prog.body(c.target)
+                if tb is None or tb.root == b.root or not c.target.startswith("octo_squirrel"):
+                    continue
+                rty = b.local_ty(t["dest"][0])
+                if "BytesMut" in rty and ("Option<" in rty or "Result<" in rty):
+                    producers.setdefault(tb.root, (b, t))
+    ctx.floor("U8", "functions whose result becomes a datagram message", 1, len(producers))
+    for root, (b, t) in sorted(producers.items()):
+        fb = prog.flat(root, max_depth=3)
+        opens = [blk for (blk, c, _) in fb.calls() if c.method in OPEN_METHODS and fb.term(blk)["k"] == "call"]
+        cyc = [blk for blk in opens if any(fb.can_reach(sx, blk) for sx in fb.succ(blk))]
+        ctx.ob("U8", root, "one-unit-per-datagram-decode", loc(t["sp"]), not cyc,
+               f"{len(opens)} AEAD open call(s), none on a cycle: one unit is decoded per call" if not cyc else
+               "the function that produces a datagram's payload loops over the AEAD open: every complete chunk that is buffered is opened and appended to one output, "
+               "so datagrams that arrived in the same read are delivered merged into one", ordinal=False)
